@@ -139,17 +139,21 @@ inductive Core where
 
 /-- A TYPED Go value: any value whose dynamic type is none of nil / bool / int64 / float64 / string /
 []any / map[string]any / the Nothing marker / *regexp.Regexp — as the script code sees it:
-`ty` names the dynamic type, `cmp` is `reflect.TypeOf(x).Comparable()` (false for `[]int`, `[]string`,
+`ty` names the dynamic type, `cmp`/`tcmp` are `reflect.TypeOf(x).Comparable()` (false for `[]int`, `[]string`,
 `map[string]int`, `gen.Array`, `gen.Object`, a struct with a slice field; true for named scalar types,
 `[2]int`, pointers, `int8`…), `id` is the equality class of the value under Go `==` among the values of
-its type (only meaningful when `cmp`), `core` is what normalisation turns it into. Assumption (registry):
-a comparable struct/array type whose value holds an uncomparable value in an interface-typed field is NOT
-such a value (finding C12-iface-field-panic). -/
+its type (only meaningful when `cmp`), `core` is what normalisation turns it into.
+`tcmp` is what reflection reports for the TYPE; `cmp` says whether Go `==` on two values of this `ty` is
+safe. They differ for exactly one kind of value: a struct or array type with an interface-typed field or
+element is comparable as a type (`tcmp = true`), but `==` on two values that hold the same uncomparable
+dynamic type there (a slice, a map) panics (`cmp = false`; `ty` then also stands for what the field holds).
+That is finding C12-iface-field-panic: `sameValue` tests the type only. -/
 structure Ext where
   ty : Nat
   cmp : Bool
   id : Nat
   core : Core
+  tcmp : Bool
   deriving DecidableEq, Inhabited
 
 /-- Operand values of a script: JSON data, the `Nothing` marker for a path that selects no node,
